@@ -406,7 +406,7 @@ func c13World(rc *kernel.RunCtx) {
 		c.env = newEnv(uni)
 		park := func(kind string, n int) { k.Park(c.name, kind, fmt.Sprint(n), nil) }
 		c.w = &core{fault: c.fault, sticky: true, park: park, limit: 512 << 10}
-		k.Go(func() {
+		k.GoNamed(c.name, func() {
 			k.Park(c.name, "start", "", nil)
 			ctx := templ.InitializeContext(context.Background())
 			for _, s := range c.specs {
@@ -417,6 +417,7 @@ func c13World(rc *kernel.RunCtx) {
 			}
 		})
 	}
+	pk := newPicker(t)
 	for {
 		k.Quiesce()
 		ps := k.ParkedList()
@@ -443,7 +444,7 @@ func c13World(rc *kernel.RunCtx) {
 		}
 		i := 0
 		if k.Steps < maxSteps {
-			i = t.Choose(len(ps), "sched")
+			i = pk.pick(t, ps)
 		}
 		k.Run(ps[i], kernel.Decision{})
 	}
